@@ -379,9 +379,7 @@ func c19queuedConcurrent(c *core.Ctx, r *core.Rand) {
 	if full {
 		name = "RecvQueuedFull"
 	}
-	select {
-	case <-done:
-	case <-time.After(30 * time.Second):
+	if !core.PatientWait(done, 30*time.Second) {
 		// wall clock: not a verdict (the closed-channel variant decides the same defect logically)
 		c.Inconclusive(name + " with concurrent consumers did not return within 30 s")
 		return
@@ -837,10 +835,8 @@ func ctxOfKind(c *core.Ctx, r *core.Rand, ctx context.Context, cancel context.Ca
 func boundedJoin(c *core.Ctx, wg *sync.WaitGroup, helper string, timeout time.Duration, ctx bool) bool {
 	done := make(chan struct{})
 	go func() { wg.Wait(); close(done) }()
-	select {
-	case <-done:
+	if core.PatientWait(done, 60*time.Second) {
 		return true
-	case <-time.After(60 * time.Second):
 	}
 	how := fmt.Sprintf("a positive timeout of %v", timeout)
 	if ctx {
